@@ -105,6 +105,34 @@ def tlc_scenarios(sc, tier, seed):
     return scen, r
 
 
+def bytes_scenarios(sc):
+    """Every terminal state of the byte-boundary instance (3 unaddressed gear drawing 0x123456 / 0xFFFEFF / 0xFFFF80, one
+    clash round): exhaustive export, replayed on the real generator like the simulated behaviours."""
+    r = core.run_tlc("SeqCommissioning", "SeqCommissioning_bytes_export.cfg", sc, workers=4, timeout=1500, xmx="4g")
+    scen = []
+    for v in core.extract_tagged(r.out, "SCEN"):
+        s = _tla_cfg_to_scenario(v[1], v[2], 2, "tlc-bytes")
+        s["expect"] = {"outcome": v[3], "shorts": v[4], "witness": v[5], "count": v[6]}
+        scen.append(s)
+    if len(scen) < 50:
+        raise core.MachineryError("byte-boundary export produced only %d terminal states:\n%s" % (len(scen), r.out[-2000:]))
+    return scen, r
+
+
+def bytes_model(out, sc):
+    """the byte-boundary instance: the code's search (all three bytes per probe) and a correct 'skip unchanged bytes'
+    optimisation hold; the optimisation with the slip of the seeded change C07f must violate P2"""
+    for cfg, label, must in (("SeqCommissioning_bytes.cfg", "SeqCommissioning byte-boundary random addresses (3 gear, K = 1)", None),
+                             ("SeqCommissioning_bytes_exact.cfg", "... with a correct skip-unchanged-bytes optimisation", None),
+                             ("SeqCommissioning_bytes_slip.cfg", "... with the slip of C07f (violates P2, as intended)", "InvP2")):
+        r = core.run_tlc("SeqCommissioning", cfg, sc, workers=8, timeout=1500, xmx="4g")
+        if must is None and not r.ok:
+            raise core.MachineryError("%s failed:\n%s" % (cfg, r.out[-3000:]))
+        if must is not None and ("Invariant %s is violated" % must) not in r.out:
+            raise core.MachineryError("%s should violate %s" % (cfg, must))
+        out.add_spec_run(r, label)
+
+
 def finding_scenario(sc):
     """TLC's counterexample to P3 without the witness exclusion -> draw stream for the real generator."""
     r = core.run_tlc("SeqCommissioning", "SeqCommissioning_finding.cfg", sc, workers=core.NCPU, timeout=900)
@@ -188,6 +216,10 @@ def run(tier, seed, replay=None):
             ts, tr = tlc_scenarios(sc, tier, seed)
             out.add_spec_run(tr, "SeqCommissioning -simulate (scenario export)")
             scen += ts
+            bytes_model(out, sc)
+            bs, br = bytes_scenarios(sc)
+            out.add_spec_run(br, "SeqCommissioning byte-boundary instance, terminal states exported")
+            scen += bs if tier == "thorough" else bs[::4]
             npy = 300 if tier == "quick" else 12000
             scen += [py_scenario(seed, k) for k in range(npy)]
             scen += boundary_scenarios(tier, seed)
